@@ -1,7 +1,9 @@
 package main
 
 import (
+	"fmt"
 	"go/types"
+	"strings"
 
 	"golang.org/x/tools/go/ssa"
 )
@@ -40,10 +42,73 @@ func (f *Frame) boundedViewSlice(x ssa.Value, hi string, desc, pos string) {
 	}
 }
 
-func (f *Frame) send(x *ssa.Send)         { f.abort("channel send is not modelled") }
+// Channels are modelled by ghost state per channel object: the number of values sent so far, the last value sent, and whether
+// the channel is closed. Blocking is not modelled (assumption: the buffer is never full; contracts bound the sends per call).
+func (f *Frame) chanKeys(t types.Type) (cnt, closed, last string, elem types.Type) {
+	ct := t.Underlying().(*types.Chan)
+	k := canonKey(ct.Elem())
+	return "ch:" + k + "#count", "ch:" + k + "#closed", "ch:" + k + "#last", ct.Elem()
+}
+
+func (f *Frame) send(x *ssa.Send) {
+	s := f.s
+	cntK, closedK, lastK, elem := f.chanKeys(x.Chan.Type())
+	ch := f.term(x.Chan)
+	pos := f.pos(x)
+	f.panicSite(eq(ch, "0"), "safety.nil", "send on nil channel", pos)
+	closed := f.heapGet(closedK, arrSort("Int", "Bool"))
+	f.panicSite(app("select", closed, ch), "safety.send-closed", "send on closed channel: "+f.srcExpr(x, "send"), pos)
+	cnt := f.heapGet(cntK, arrSort("Int", "Int"))
+	f.heapSet(cntK, arrSort("Int", "Int"), app("store", cnt, ch, app("+", app("select", cnt, ch), "1")))
+	// last value sent, leaf-wise
+	var ls []leaf
+	leavesOf(elem, "", &ls)
+	v := f.val(x.X)
+	for _, l := range ls {
+		srt := sortOfType(l.Ty)
+		if srt == "" {
+			f.abort("channel element leaf %s not modelled", l.Ty)
+		}
+		key := joinKey(lastK, l.Path)
+		arr := f.heapGet(key, arrSort("Int", srt))
+		f.heapSet(key, arrSort("Int", srt), app("store", arr, ch, f.asS(leafOf(v, l.Path), l.Ty).T))
+	}
+	s.assume("channel sends never block (buffered channel; each lexer state call sends at most the number of tokens its contract states)")
+}
+
+func leafOf(v Val, path string) Val {
+	if path == "" {
+		return v
+	}
+	sv, ok := v.(StructV)
+	if !ok {
+		return v
+	}
+	st := sv.Ty.Underlying().(*types.Struct)
+	name := path
+	rest := ""
+	for i := 0; i < len(path); i++ {
+		if path[i] == '.' {
+			name, rest = path[:i], path[i+1:]
+			break
+		}
+	}
+	for i := 0; i < st.NumFields(); i++ {
+		if st.Field(i).Name() == name {
+			return leafOf(sv.F[i], rest)
+		}
+	}
+	return v
+}
 func (f *Frame) selectOp(x *ssa.Select)   { f.abort("select is not modelled") }
 func (f *Frame) recv(x *ssa.UnOp)         { f.abort("channel receive is not modelled") }
-func (f *Frame) closeChan(v ssa.Value, pos string) { f.abort("close is not modelled") }
+func (f *Frame) closeChan(v ssa.Value, pos string) {
+	_, closedK, _, _ := f.chanKeys(v.Type())
+	ch := f.term(v)
+	closed := f.heapGet(closedK, arrSort("Int", "Bool"))
+	f.panicSite(or(eq(ch, "0"), app("select", closed, ch)), "safety.close", "close of nil or closed channel", pos)
+	f.heapSet(closedK, arrSort("Int", "Bool"), app("store", closed, ch, "true"))
+}
 
 func (f *Frame) stdlibCall2(name string, callee *ssa.Function, args []Val, rt types.Type, pos, desc string) Val {
 	s := f.s
@@ -121,8 +186,77 @@ func (f *Frame) stdlibCall2(name string, callee *ssa.Function, args []Val, rt ty
 		s.fact(implies(and(not(ok), rng), app("f_isinf", val)))
 		s.assume("strconv.ParseFloat: err == nil exactly when the text is a finite number representable in the bit size (parsef_ok/parsef_val uninterpreted; hex floats and the words inf/nan are excluded by the lexer's number grammar); a range error returns an infinity, a syntax error 0")
 		return TupleV{[]Val{S{val, types.Typ[types.Float64]}, S{errv, errT}}}
+	case "strings.ContainsRune":
+		if lit, ok := s.litOf(T(0)); ok {
+			ascii := true
+			for i := 0; i < len(lit); i++ {
+				if lit[i] >= 128 {
+					ascii = false
+				}
+			}
+			if ascii {
+				var ds []string
+				for i := 0; i < len(lit); i++ {
+					ds = append(ds, eq(T(1), num(int64(lit[i]))))
+				}
+				return S{or(ds...), types.Typ[types.Bool]}
+			}
+		}
+	case "unicode/utf8.DecodeRuneInString":
+		str := T(0)
+		r := s.freshConst("rune", "Int")
+		w := s.freshConst("width", "Int")
+		s.fact(ite(eq(app("slen", str), "0"), and(eq(r, "65533"), eq(w, "0")), and(eq(r, app("rune_at", str, "0")), eq(w, app("rune_w", str, "0")))))
+		s.assume("utf8.DecodeRuneInString(s) is the first step of the UTF-8 decoding chain (rune_at/rune_w), (RuneError, 0) for the empty string")
+		return TupleV{[]Val{S{r, types.Typ[types.Rune]}, S{w, types.Typ[types.Int]}}}
+	case "strings.IndexAny":
+		if lit, ok := s.litOf(T(1)); ok && len(lit) > 0 {
+			// the smallest index of any of the (ASCII) characters, -1 if none occurs
+			str := T(0)
+			r := s.freshConst("idxany", "Int")
+			var each []string
+			for i := 0; i < len(lit); i++ {
+				each = append(each, eq(app("sat", str, r), num(int64(lit[i]))))
+			}
+			var none []string
+			for i := 0; i < len(lit); i++ {
+				none = append(none, not(eq("(sat "+str+" j)", num(int64(lit[i])))))
+			}
+			s.fact(and(app("<=", "(- 1)", r), app("<", r, app("slen", str)), implies(app(">=", r, "0"), or(each...))))
+			bs, off := substrBase(str)
+			var noneB []string
+			for i := 0; i < len(lit); i++ {
+				noneB = append(noneB, not(eq("(sat "+bs+" j)", num(int64(lit[i])))))
+			}
+			s.fact(fmt.Sprintf("(forall ((j Int)) (! (=> (and (<= %s j) (< j (+ %s (ite (>= %s 0) %s (slen %s))))) %s) :pattern ((sat %s j))))", off, off, r, r, str, and(noneB...), bs))
+			_ = none
+			return S{r, types.Typ[types.Int]}
+		}
+	case "(*regexp.Regexp).FindStringIndex":
+		// loc == nil, or loc = [0, n] for the ^-anchored patterns used here with 0 < n <= len(s)
+		pat := f.asS(args[0], types.Typ[types.String]).T
+		str := T(1)
+		n := app("re_prefixlen", pat, str)
+		ref := f.newRef()
+		s.freshRefs[ref] = true
+		as := arrSort("Int", arrSort("Int", "Int"))
+		arr := f.heapGet("e:int", as)
+		f.heapSet("e:int", as, app("store", arr, ref, app("store", app("store", "((as const (Array Int Int)) 0)", "0", "0"), "1", n)))
+		res := s.freshConst("loc", "Slice")
+		s.fact(eq(res, ite(app("re_match", pat, str), app("mk-slice", ref, "0", "2", "2"), "nil_slice")))
+		s.fact(implies(app("re_match", pat, str), and(app("<", "0", n), app("<=", n, app("slen", str)))))
+		s.assume("regexp FindStringIndex on a ^-anchored pattern that cannot match the empty string: nil, or [0, n] with 0 < n <= len(s) (re_match / re_prefixlen uninterpreted)")
+		return S{res, callee.Signature.Results().At(0).Type()}
 	case "strings.Index":
-		return S{app("str_index", T(0), T(1)), types.Typ[types.Int]}
+		idx := app("str_index", T(0), T(1))
+		if lit, ok := s.litOf(T(1)); ok && len(lit) == 1 {
+			// single-character needle: no occurrence before the index, stated on the underlying string so that reads of it trigger the fact
+			bs, off := substrBase(T(0))
+			s.fact(fmt.Sprintf("(forall ((j Int)) (! (=> (and (<= %s j) (< j (+ %s (ite (>= %s 0) %s (slen %s))))) (not (= (sat %s j) %d))) :pattern ((sat %s j))))",
+				off, off, idx, idx, T(0), bs, lit[0], bs))
+			s.fact(implies(app(">=", idx, "0"), eq(app("sat", bs, plus(off, idx)), num(int64(lit[0])))))
+		}
+		return S{idx, types.Typ[types.Int]}
 	case "strings.LastIndex":
 		return S{app("str_lastindex", T(0), T(1)), types.Typ[types.Int]}
 	case "strings.Count":
@@ -142,4 +276,16 @@ func (f *Frame) stdlibCall2(name string, callee *ssa.Function, args []Val, rt ty
 		return TupleV{[]Val{S{r, types.Typ[types.String]}, S{e, errT}}}
 	}
 	return nil
+}
+
+// substrBase: for a term (substr S a b) the underlying string S and the offset a; otherwise the term itself and 0.
+func substrBase(t string) (string, string) {
+	if strings.HasPrefix(t, "(substr ") {
+		p := splitTop(t)
+		if len(p) == 4 {
+			b, off := substrBase(p[1])
+			return b, plus(off, p[2])
+		}
+	}
+	return t, "0"
 }
